@@ -103,8 +103,35 @@ fn main() {
         }
         gens.push(json!({"bits": n, "capacity": cap, "count": g.len(), "digest": hex(&h.finalize()), "g_first": hex(&g[0]), "g_last": hex(&g[g.len() - 1]), "h_first": hex(&hh[0]), "h_last": hex(&hh[hh.len() - 1])}));
     }
+    // known answers of the pristine merlin crate (pins the harness's event-logging copy to it)
+    let merlin_kat = {
+        struct Zero;
+        impl rand_core::RngCore for Zero {
+            fn next_u32(&mut self) -> u32 { 0 }
+            fn next_u64(&mut self) -> u64 { 0 }
+            fn fill_bytes(&mut self, d: &mut [u8]) { d.fill(0) }
+            fn try_fill_bytes(&mut self, d: &mut [u8]) -> Result<(), rand_core::Error> { d.fill(0); Ok(()) }
+        }
+        impl rand_core::CryptoRng for Zero {}
+        let mut t = Transcript::new(b"bpv-kat");
+        t.append_message(b"a", &[1, 2, 3]);
+        t.append_u64(b"n", 0x0102030405060708);
+        let mut c1 = [0u8; 64];
+        t.challenge_bytes(b"c1", &mut c1);
+        let mut fork = t.clone();
+        fork.append_message(b"b", &[7u8; 40]);
+        let mut c2 = [0u8; 32];
+        fork.challenge_bytes(b"c2", &mut c2);
+        let mut rng = t.build_rng().rekey_with_witness_bytes(b"w", &[9u8; 40]).finalize(&mut Zero);
+        let mut r1 = [0u8; 64];
+        rng.fill_bytes(&mut r1);
+        let mut r2 = [0u8; 8];
+        rng.fill_bytes(&mut r2);
+        json!({"c1": hex(&c1), "c2": hex(&c2), "r1": hex(&r1), "r2": hex(&r2)})
+    };
     let pc = ristretto::create_pedersen_gens_with_extension_degree(ExtensionDegree::AddFiveBasePoints);
     let out = json!({
+        "merlin_kat": merlin_kat,
         "source": "tari_bulletproofs_plus 0.4.0 at the pinned commit (before any fix: commit), pristine merlin 3.0.0",
         "labels": LABELS.iter().map(|l| String::from_utf8_lossy(l).to_string()).collect::<Vec<_>>(),
         "pedersen": {"h": hex(pc.h_base_compressed.as_bytes()), "g": pc.g_base_compressed_vec.iter().map(|p| hex(p.as_bytes())).collect::<Vec<_>>()},
